@@ -16,7 +16,7 @@ IsTup(r, n) == r.t = "tup" /\ Len(r.v) = n
 \* numeric equality with the rational num/den, for int or float results
 NumEq(r, num, den) ==
   \/ r.t = "i" /\ r.v * den = num
-  \/ r.t = "q" /\ r.x = 1 /\ r.n * den = num * r.d
+  \/ r.t = "q" /\ r.x = 1 /\ (IF r.d = den THEN r.n = num ELSE r.n * den = num * r.d)
 \* an int (not a float) equal to v / a float equal to num/den
 IsNum(r) == r.t \in {"i", "q"}
 \* value or None
